@@ -299,6 +299,7 @@ func ruleNoMatchRejects(e *Env, rule string, fns ...*ssa.Function) {
 					// for the sub-match forms the comparison results are "true = NO match" when written with ==: the
 					// visit above is entered with negated = (op != EQL), and an If on such a value has its TRUE edge as
 					// the failing edge when not negated — so flip the reading here
+					fullLen := int64(0)
 					visitSub := func() {
 						var inner func(v ssa.Value, noMatchOnTrue bool, depth int)
 						inner = func(v ssa.Value, noMatchOnTrue bool, depth int) {
@@ -343,6 +344,14 @@ func ruleNoMatchRejects(e *Env, rule string, fns ...*ssa.Function) {
 												case token.GEQ:
 													inner(bo, false, 0)
 												}
+											} else if isC && fullLen > 0 && k == fullLen {
+												// a sub-match result is nil or has one entry per group plus one
+												switch bo.Op {
+												case token.NEQ, token.LSS:
+													inner(bo, true, 0)
+												case token.EQL, token.GEQ:
+													inner(bo, false, 0)
+												}
 											}
 										}
 									}
@@ -360,6 +369,16 @@ func ruleNoMatchRejects(e *Env, rule string, fns ...*ssa.Function) {
 						}
 					}
 					failEdge, test = nil, nil
+					if ld, ok := call.Call.Args[0].(*ssa.UnOp); ok && ld.Op == token.MUL {
+						if g, ok := ld.X.(*ssa.Global); ok {
+							if re := e.C.RegexpOfGlobal(g); re != nil {
+								fullLen = int64(re.MaxCap()) + 1
+								if strings.HasSuffix(name, "Index") {
+									fullLen *= 2
+								}
+							}
+						}
+					}
 					visitSub()
 				}
 				// … and nothing succeeds without it: every nil-error return lies behind the successful edge of the test,
@@ -578,4 +597,30 @@ func (e *Env) tagTrimmed(v ssa.Value) bool {
 		n++
 	}
 	return n > 0
+}
+
+// knownNilAt: v is the nil constant, or an error value tested against nil by an If whose nil side (entered from that
+// test alone) dominates blk — `return x, err` behind `if err != nil { return … }` returns a nil error.
+func knownNilAt(v ssa.Value, blk *ssa.BasicBlock) bool {
+	if flow.IsNilConst(v) {
+		return true
+	}
+	for _, b := range blk.Parent().Blocks {
+		iff, ok := b.Instrs[len(b.Instrs)-1].(*ssa.If)
+		if !ok {
+			continue
+		}
+		cmp, ok := iff.Cond.(*ssa.BinOp)
+		if !ok || (cmp.Op != token.NEQ && cmp.Op != token.EQL) {
+			continue
+		}
+		if !(cmp.X == v && flow.IsNilConst(cmp.Y) || cmp.Y == v && flow.IsNilConst(cmp.X)) {
+			continue
+		}
+		nilSide := b.Succs[map[bool]int{true: 0, false: 1}[cmp.Op == token.EQL]]
+		if len(nilSide.Preds) == 1 && (nilSide == blk || nilSide.Dominates(blk)) {
+			return true
+		}
+	}
+	return false
 }
